@@ -26,6 +26,8 @@ type kFeat struct {
 	// childIdx: the child stores own constraints of their own - a unique index on the plain child's field
 	// `title` (value "T-<id>") and a set index on the extended child's field `badges` (value ["g"])
 	childIdx bool
+	// childLinks (needs places): a link collection owned by the plain child store (mgr.mplaces <-> places.mgrs)
+	childLinks bool
 }
 
 type kPerson struct {
@@ -45,11 +47,15 @@ type kModel struct {
 	people map[string]*kPerson
 	pets   map[string]string  // pet -> owner
 	links  map[[2]string]bool // (person, place)
+	mlinks map[[2]string]bool // (manager, place): link collection owned by the plain child store
 	rc     map[[2]string]int  // (person, place) -> count
 }
 
 func (m *kModel) Clone() explore.Model {
-	n := &kModel{sc: m.sc, orgs: map[string]bool{}, places: map[string]bool{}, people: map[string]*kPerson{}, pets: map[string]string{}, links: map[[2]string]bool{}, rc: map[[2]string]int{}}
+	n := &kModel{sc: m.sc, orgs: map[string]bool{}, places: map[string]bool{}, people: map[string]*kPerson{}, pets: map[string]string{}, links: map[[2]string]bool{}, mlinks: map[[2]string]bool{}, rc: map[[2]string]int{}}
+	for k, v := range m.mlinks {
+		n.mlinks[k] = v
+	}
 	for k := range m.orgs {
 		n.orgs[k] = true
 	}
@@ -130,6 +136,10 @@ func (m *kModel) Render() *dump.Tree {
 		t.Ensure("root", "people", k[0], "places").Values[world.TypedKey(k[1])] = []byte{}
 		t.Ensure("root", "places", k[1], "people").Values[world.TypedKey(k[0])] = []byte{}
 	}
+	for k := range m.mlinks {
+		t.Ensure("root", "people", k[0], "mgr", "mplaces").Values[world.TypedKey(k[1])] = []byte{}
+		t.Ensure("root", "places", k[1], "mgrs").Values[world.TypedKey(k[0])] = []byte{}
+	}
 	for k, c := range m.rc {
 		t.Ensure("root", "people", k[0], "rplaces").Values[world.TypedKey(k[1])] = world.EncInt32(int32(c))
 		t.Ensure("root", "places", k[1], "rpeople").Values[world.TypedKey(k[0])] = world.EncInt32(int32(c))
@@ -146,6 +156,7 @@ type kitchen struct {
 	rolesIdx                    boltz.SetReadIndex
 	lp, ll                      boltz.LinkCollection
 	rp, rl                      boltz.RefCountedLinkCollection
+	mlp, mll                    boltz.LinkCollection // owned by the plain child store
 	personIds, orgIds, placeIds []string
 	petIds                      []string
 	ops                         []explore.Op
@@ -280,6 +291,12 @@ func newKitchen(label string, feat kFeat) *kitchen {
 	if feat.childIdx {
 		k.prof.AddSetIndex(k.prof.AddSetSymbol("badges", ast.NodeTypeString))
 	}
+	if feat.childLinks {
+		symMP := k.mgr.AddFkSetSymbol("mplaces", k.places)
+		symPM := k.places.AddFkSetSymbol("mgrs", k.mgr)
+		k.mlp = k.mgr.AddLinkCollection(symMP, symPM)
+		k.mll = k.places.AddLinkCollection(symPM, symMP)
+	}
 	k.childIdxDir = map[string][]string{"title": {k.mgr.GetEntityType(), "title"}, "badges": {k.prof.GetEntityType(), "badges"}}
 	k.buildOps()
 	return k
@@ -296,7 +313,7 @@ func (k *kitchen) InitDb(db *boltz.DbImpl) error {
 	})
 }
 func (k *kitchen) NewModel() explore.Model {
-	return &kModel{sc: k, orgs: map[string]bool{}, places: map[string]bool{}, people: map[string]*kPerson{}, pets: map[string]string{}, links: map[[2]string]bool{}, rc: map[[2]string]int{}}
+	return &kModel{sc: k, orgs: map[string]bool{}, places: map[string]bool{}, people: map[string]*kPerson{}, pets: map[string]string{}, links: map[[2]string]bool{}, mlinks: map[[2]string]bool{}, rc: map[[2]string]int{}}
 }
 func (k *kitchen) Ops() []explore.Op                   { return k.ops }
 func (k *kitchen) Context(_ []int) boltz.MutateContext { return explore.OrdinaryContext() }
@@ -374,6 +391,11 @@ func (m *kModel) deletePerson(id string) {
 	for key := range m.rc {
 		if key[0] == id {
 			delete(m.rc, key)
+		}
+	}
+	for key := range m.mlinks {
+		if key[0] == id {
+			delete(m.mlinks, key)
 		}
 	}
 }
@@ -461,6 +483,11 @@ func (k *kitchen) buildOps() {
 					for key := range m.rc {
 						if key[1] == l {
 							delete(m.rc, key)
+						}
+					}
+					for key := range m.mlinks {
+						if key[1] == l {
+							delete(m.mlinks, key)
 						}
 					}
 					return []string{"ok"}
@@ -627,6 +654,22 @@ func (k *kitchen) buildOps() {
 					return []string{"ok"}
 				}})
 		}
+		// a delete whose not-found answer the caller ignores (the transaction goes on after a FAILED store call)
+		k.add(kOpInfo{"other", id, "people"}, explore.Op{
+			Name: "deleteIgnoringNotFound@people(" + id + ")",
+			Do: func(ctx boltz.MutateContext) error {
+				if err := k.people.DeleteById(ctx, id); err != nil && !boltz.IsErrNotFoundErr(err) {
+					return err
+				}
+				return nil
+			},
+			Apply: func(mm explore.Model) []string {
+				m := mm.(*kModel)
+				if _, ok := m.people[id]; ok {
+					m.deletePerson(id)
+				}
+				return []string{"ok"}
+			}})
 		if k.feat.pets {
 			for _, pet := range k.petIds {
 				pet := pet
@@ -673,6 +716,30 @@ func (k *kitchen) buildOps() {
 						delete(m.links, [2]string{id, l})
 						return []string{"ok"}
 					}})
+				if k.feat.childLinks {
+					k.add(kOpInfo{"link", id, "mgr"}, explore.Op{
+						Name: fmt.Sprintf("mgr.AddLinks(%s,%s)", id, l),
+						Do:   func(ctx boltz.MutateContext) error { return k.mlp.AddLinks(ctx.Tx(), id, l) },
+						Apply: func(mm explore.Model) []string {
+							m := mm.(*kModel)
+							if p, ok := m.people[id]; !ok || !p.mgr || !m.places[l] {
+								return []string{"notfound"}
+							}
+							m.mlinks[[2]string{id, l}] = true
+							return []string{"ok"}
+						}})
+					k.add(kOpInfo{"link", id, "places"}, explore.Op{
+						Name: fmt.Sprintf("places.RemoveMgrLinks(%s,%s)", l, id),
+						Do:   func(ctx boltz.MutateContext) error { return k.mll.RemoveLinks(ctx.Tx(), l, id) },
+						Apply: func(mm explore.Model) []string {
+							m := mm.(*kModel)
+							if !m.places[l] {
+								return []string{"notfound"}
+							}
+							delete(m.mlinks, [2]string{id, l})
+							return []string{"ok"}
+						}})
+				}
 				if k.feat.rc {
 					k.add(kOpInfo{"link", id, "people"}, explore.Op{
 						Name: fmt.Sprintf("people.rc.Increment(%s,%s)", id, l),
